@@ -187,11 +187,15 @@ func runC42(c *Ctx) {
 			errGuard := false
 			// the error of the request itself: the one handleMiss / handleHit assign
 			var reqErr types.Object
+			var reqErrPos token.Pos
 			ast.Inspect(fn.Body(), func(nd ast.Node) bool {
 				if as, ok := nd.(*ast.AssignStmt); ok && len(as.Rhs) == 1 && len(as.Lhs) == 3 {
 					if call, ok := unparen(as.Rhs[0]).(*ast.CallExpr); ok {
 						if f := calleeOf(info, call); f != nil && (f.Name() == "handleMiss" || f.Name() == "handleHit") {
 							reqErr = objOf(info, as.Lhs[2])
+							if as.End() > reqErrPos {
+								reqErrPos = as.End()
+							}
 						}
 					}
 				}
@@ -204,7 +208,7 @@ func runC42(c *Ctx) {
 							flag = o
 						}
 					}
-					if be, ok := unparen(atom).(*ast.BinaryExpr); ok && reqErr != nil && objOf(info, be.X) == reqErr && isNil(info, be.Y) && ((be.Op == token.EQL && t) || (be.Op == token.NEQ && !t)) {
+					if be, ok := unparen(atom).(*ast.BinaryExpr); ok && reqErr != nil && objOf(info, be.X) == reqErr && be.Pos() > reqErrPos && isNil(info, be.Y) && ((be.Op == token.EQL && t) || (be.Op == token.NEQ && !t)) {
 						errGuard = true
 					}
 				})
